@@ -36,7 +36,14 @@ func enumRoots() []RootD {
 		eRootRoot("pdata"),
 		pageRoot("data", "first"),
 		pageRoot("pdata", "mid"),
+		ortRoot("pdata"),
 	}
+}
+
+// ortRoot: a struct whose exported field names are not ASCII, as root data.
+func ortRoot(kind string) RootD {
+	d := vOrt("r")
+	return RootD{Kind: kind, Data: &d, Map: map[string]VD{"x": vStr("rx")}}
 }
 
 // pageRoot: an embedding struct whose own fields compete with promoted ones, as root data.
@@ -170,7 +177,7 @@ func zoo() []VD {
 		VD{K: "nilptr", S: "slice"},
 		VD{K: "nilptr", S: "map"},
 	)
-	return []VD{a, b, intKeyZoo(), rowZoo(), looseZoo(), typedMapZoo(), typedMapZooEntry("mapsls"), zooNode("top", true), vList("ptr", zooNode("ptop", true)), vStr("just a string"), vList("arr2", vList("slice", vInt(1)), zooNode("ia", false))}
+	return []VD{a, b, intKeyZoo(), rowZoo(), looseZoo(), typedMapZoo(), typedMapZooEntry("mapsls"), unicodeZoo(), zooNode("top", true), vList("ptr", zooNode("ptop", true)), vStr("just a string"), vList("arr2", vList("slice", vInt(1)), zooNode("ia", false))}
 }
 
 // exoticZoo holds keys only the quoted bracket form can spell (region of finding kfQuoted).
@@ -333,6 +340,9 @@ func enumPaths(rec *ev.Rec, known *kf.File, maxDepth, shard, shards int) (int, b
 // ---------------------------------------------------------------------------------------
 
 var plainKeys = []string{"a", "b", "k", "0", "1", "Title", "x y", "-1"}
+
+func init() { plainKeys = append(plainKeys, unicodeKeys...) }
+
 var exoticKeys = []string{"a.b", "", " s", "q[0", "k."}
 
 type genCtx struct {
@@ -726,7 +736,9 @@ func genSeq(t *rapid.T, rec *ev.Rec, known *kf.File) SeqCase {
 		return m
 	}
 	var root RootD
-	switch rapid.IntRange(0, 12).Draw(t, "root") {
+	switch rapid.IntRange(0, 13).Draw(t, "root") {
+	case 13:
+		root = ortRoot(rapid.SampledFrom([]string{"data", "pdata"}).Draw(t, "okind"))
 	case 11:
 		root = pageRoot("data", rapid.SampledFrom([]string{"first", "last", "mid", "base"}).Draw(t, "porder"))
 	case 12:
@@ -777,6 +789,9 @@ func genSeq(t *rapid.T, rec *ev.Rec, known *kf.File) SeqCase {
 	if known.Open(kfTagOverName) && (root.Kind == "struct" || root.Kind == "ptr") {
 		c.EnvSkip = append(c.EnvSkip, "Kind")
 		rec.Excluded(kfTagOverName)
+	}
+	if root.Data != nil && root.Data.K == "ort" {
+		c.Names = append(append([]string(nil), ortUniverse...), "y", "Plain")
 	}
 	if root.Data != nil && root.Data.K == "page" {
 		c.Names = append(append([]string(nil), pageUniverse...), "y", "Plain", "ID")
